@@ -116,9 +116,13 @@ def run_case(griffe, acc, case):
     if container == "builtin":
         return
     v = _validator()
-    for resolve in (False, True):
-        for parser in PARSERS:
+    # (the working directory is part of the input: relative_filepath depends on it.  Inside the scratch root for every run,
+    # and once more from an unrelated directory for the first parser)
+    for resolve, parser, where in [(r, p, "inside") for r in (False, True) for p in PARSERS] + [(False, PARSERS[0], "outside")]:
+        if True:
             cd = {"case": list(case), "resolve_aliases": resolve, "parser": parser}
+            if where == "outside":
+                cd["cwd"] = "unrelated directory"
             with sandbox.scratch_dir("c09") as d, sandbox.interpreter_state():
                 files, top, subs = corpus.files_for(container, f1, f2)
                 sandbox.write_tree(d, files)
@@ -126,7 +130,8 @@ def run_case(griffe, acc, case):
                 cwd = os.getcwd()
                 size = sum(len(x) for x in files.values()) + (1 if resolve else 0) + (1 if parser else 0)
                 try:
-                    os.chdir(d)  # relative_filepath needs the files below the current directory
+                    os.makedirs(os.path.join(d, "unrelated-cwd"), exist_ok=True)
+                    os.chdir(d if where == "inside" else os.path.join(d, "unrelated-cwd"))  # (not "/": every absolute path is relative to it)
                     loader = griffe.GriffeLoader(search_paths=sps, allow_inspection=(agent == "inspect"), force_inspection=(agent == "inspect"), docstring_parser=griffe.Parser(parser) if parser else None)
                     mod = loader.load(top, try_relative_path=False)
                     if resolve:
@@ -135,7 +140,7 @@ def run_case(griffe, acc, case):
                         doc = json.loads(mod.as_json(full=True))
                     except Exception as e:  # noqa: BLE001
                         acc.case(cd, outcome="serialize-raise:" + type(e).__name__, nontrivial=False)
-                        acc.violation(f"serialize/{type(e).__name__}/{container}/{agent}", f"as_json(full=True) raised {e!r}", cd, None, size=size)
+                        acc.violation(f"serialize/{type(e).__name__}/{container}/{agent}" + ("/cwd-outside" if where == "outside" else ""), f"as_json(full=True) raised {e!r}", cd, None, size=size)
                         continue
                 except Exception as e:  # noqa: BLE001
                     acc.case(cd, outcome="load-failed:" + type(e).__name__, nontrivial=False)
